@@ -89,6 +89,8 @@ def spec_lines(line):
     """(segment index, spec-engine input line or immediate verdict) for one output line."""
     out = []
     prev = None
+    if line.startswith("NOT-RUN") or line.startswith("CRASH"):
+        return out
     for i, seg in enumerate(segments(line)):
         if seg in ("skip", "-"):
             continue
@@ -130,17 +132,52 @@ def judge(run, lines):
     return bad
 
 
+def run_impl_batch(run, exe, lines, timeout, max_restarts=3):
+    """Like core.run_impl_lines, with a bound on restarts: a driver that dies or hangs on a case gets
+    'CRASH <rc>' for it and is restarted after it at most `max_restarts` times (a hang costs `timeout`
+    seconds each time); what is left then is 'NOT-RUN' and is not compared."""
+    out_lines, crashes = [], {}
+    start, n, restarts = 0, len(lines), 0
+    cf = core.os.path.join(run.work, "impl-cases-%d.txt" % core.os.getpid())
+    while start < n and restarts <= max_restarts:
+        with open(cf, "w") as f:
+            f.write("\n".join(lines[start:]) + "\n")
+        rc, out, err = core.run_impl(exe, [cf], timeout=timeout)
+        got = out.split("\n")
+        got.pop()                       # "" after the last newline, or a partial line
+        got = got[:n - start]
+        out_lines += got
+        start += len(got)
+        if start < n:
+            crashes[start] = (rc, err[-2500:])
+            out_lines.append("CRASH %s" % rc)
+            start += 1
+            restarts += 1
+        elif rc != 0:
+            crashes[n - 1] = (rc, err[-2500:])
+    not_run = n - len(out_lines)
+    out_lines += ["NOT-RUN"] * not_run
+    if not_run:
+        run.count("impl-cases-not-run-after-repeated-crashes", not_run)
+    return out_lines, crashes
+
+
 def run_both(run, exe, cases, tag="cases"):
     lines = [" ".join(c) for c in cases]
     model = core.run_model("cache", run.casefile("cache-%s.txt" % tag, lines))
-    impl, crashes = core.run_impl_lines(exe, run.work, lines)
+    # a batch takes a second or two; a driver that hangs (unsigned counter underflow turns the
+    # bounded loops of cache.c into 2^32 iterations) is cut off and the case reported as a crash
+    impl, crashes = run_impl_batch(run, exe, lines, timeout=20 if run.tier == "quick" else 300)
+    for i, l in enumerate(impl):
+        if l == "NOT-RUN":
+            model[i] = "NOT-RUN"
     return model, impl, crashes
 
 
 def run_one(run, exe, case):
     cf = run.casefile("cache-one.txt", [" ".join(case)])
     model = core.run_model("cache", cf)
-    rc, out, err = core.run_impl(exe, [cf], timeout=120)
+    rc, out, err = core.run_impl(exe, [cf], timeout=10)
     impl = out.split("\n")[:-1]
     return model, impl, rc, err
 
@@ -230,6 +267,9 @@ def compare(run, exe, cases, model, impl, crashes, note=True):
             run.count("cap-%s-histories" % c[0])
             nt = any(k.endswith("-evict") or k == "get-busy" for k in kinds)
             run.note_case(" ".join(c), nt)
+            if i < 2:
+                run.sample({"history": " ".join(c)[:300],
+                            "implementation_last_step": segments(line)[-1][:400] if line else None})
     concrete = sorted(set(spec_bad) | set(crashes), key=lambda i: len(cases[i]))
     tie_only = sorted(set(bad) - set(concrete), key=lambda i: len(cases[i]))
     run.count("histories-impl-contradicts-spec-or-crashes", len(concrete))
@@ -366,7 +406,7 @@ def check(run):
         if quick:
             plan = [(1, 3, 2, 100000, 40000), (2, 4, 3, 3000, 25000)]
         else:
-            plan = [(1, 3, 2, 10 ** 6, 10 ** 6), (1, 4, 3, 10 ** 6, 10 ** 6), (2, 5, 3, 150000, 1500000)]
+            plan = [(1, 3, 2, 10 ** 6, 10 ** 6), (1, 4, 3, 10 ** 6, 10 ** 6), (2, 5, 3, 150000, 600000)]
         for cap, nkeys, maxrefs, max_states, max_hist in plan:
             ex.append(bfs(run, exe, cap, nkeys, maxrefs, max_states, max_hist))
     run.cov["exhaustive"] = ex
